@@ -223,3 +223,14 @@ func setStr(m map[string]bool) string {
 }
 
 type typesNamed = types.Named
+
+type typesSlice = types.Slice
+type typesConst = types.Const
+
+func typesIdentical(a, b types.Type) bool { return types.Identical(a, b) }
+
+func constInt64(k *types.Const) (int64, bool) {
+	return constantInt64(k.Val())
+}
+
+type typesSignature = types.Signature
